@@ -328,7 +328,7 @@ pub fn total(tier: Tier) -> (u64, u64, u64, u64) {
     let g2 = s * s;
     let g3 = match tier {
         Tier::Quick => r * r * r,
-        Tier::Thorough => s * s * r,
+        Tier::Thorough => s * r * r,
     };
     (g1, g2, g3, g1 * 2 + g2 * 2 + g3 * 2)
 }
@@ -353,7 +353,7 @@ pub fn nth_case(tier: Tier, mut i: u64) -> Case {
     let j = i % g3;
     let specs = match tier {
         Tier::Quick => [red[(j / (r * r)) as usize], red[((j / r) % r) as usize], red[(j % r) as usize]],
-        Tier::Thorough => [spec_from(j / (s * r)), spec_from((j / r) % s), red[(j % r) as usize]],
+        Tier::Thorough => [spec_from(j / (r * r)), red[((j / r) % r) as usize], red[(j % r) as usize]],
     };
     Case { tree: layout_tree(shape, &specs), attached: true }
 }
@@ -380,7 +380,7 @@ pub fn run(tier: Tier) -> i32 {
         return 2;
     }
     let cov = json!({
-        "rule": "namespace layouts: 1 element (540 specs: default in {-,X,Y,\"\"} x p in {-,X,Y} x q in {-,X,Y} x element namespace in {none,X,Y} x attribute in {absent, k, {X}k, {Y}k, xml:space}), chains of 2 (540^2), chains of 3 and forks of 3 (quick: reduced 72-spec menu cubed; thorough: 540 x 540 x 144); attached under a document and (1-2 elements) unattached; every node incl. attribute / namespace / document nodes x prefixes {\"\",p,q,xml,r} x namespaces {X,Y,XML,Z}; distinct = distinct canonical layouts (counted over all indices when the space has <= 8M layouts, else over every 97th index: a measured lower bound)",
+        "rule": "namespace layouts: 1 element (540 specs: default in {-,X,Y,\"\"} x p in {-,X,Y} x q in {-,X,Y} x element namespace in {none,X,Y} x attribute in {absent, k, {X}k, {Y}k, xml:space}), chains of 2 (540^2), chains of 3 and forks of 3 (quick: reduced 72-spec menu cubed; thorough: 540 x 144 x 144); attached under a document and (1-2 elements) unattached; every node incl. attribute / namespace / document nodes x prefixes {\"\",p,q,xml,r} x namespaces {X,Y,XML,Z}; distinct = distinct canonical layouts (counted over all indices when the space has <= 8M layouts, else over every 97th index: a measured lower bound)",
         "total_layouts": tot,
     });
     ctx.finish(stats, cov, vec!["hash iteration order observed, not controlled: results compared as sets / maps".into()])
